@@ -261,7 +261,8 @@ pub fn c15(eng: &mut Engine, rng: &mut Rng, thorough: bool, out: &mut Out) -> Ca
         let d = eng.cast.w.def("A");
         let schemas = eng.cast.w.schemas();
         let cred_defs = eng.cast.w.cred_defs();
-        let vals: Vec<(String, String)> = vec![("name".into(), "Alice".into()), ("age".into(), "-25".into()), ("sex".into(), "F".into()), ("height".into(), "-0170".into())];
+        for (a, h) in [("-25", "-0170"), ("0", "-0"), ("-2147483648", "2147483647"), ("-1", "255"), ("-256", "65536")] {
+        let vals: Vec<(String, String)> = vec![("name".into(), "Alice".into()), ("age".into(), a.into()), ("sex".into(), "F".into()), ("height".into(), h.into())];
         if let Ok(cred) = crate::world::issue_plain(d, &eng.cast.holders[0], &vals) {
             let req: PresentationRequest = serde_json::from_value(json!({"nonce": format!("{}", 1000 + rng.below(1_000_000_000)), "name":"r","version":"1.0","requested_attributes": {"r0": {"name": "age"}, "r1": {"name": "height"}}, "requested_predicates": {}})).unwrap();
             let mut pc = PresentCredentials::default();
@@ -287,6 +288,17 @@ pub fn c15(eng: &mut Engine, rng: &mut Rng, thorough: bool, out: &mut Out) -> Ca
                 }
                 if let Ok(p) = w3c::prover::create_presentation(&req, pc, &eng.cast.holders[0], &schemas, &cred_defs, None) {
                     let p2 = hop(&p, "W3CPresentation", out, "C15:w3c:negative-revealed-value-lost-in-proof-value");
+                    // the revealed encodings before and after the hop against the model of the binary big-number codec (op bn_hop)
+                    let enc_of = |pp: &W3CPresentation| -> Vec<(String, String)> {
+                        pp.verifiable_credential[0].get_credential_presentation_proof().ok().map(|pv| serde_json::to_value(&pv.sub_proof).unwrap())
+                            .and_then(|sj| sj["primary_proof"]["eq_proof"]["revealed_attrs"].as_object().map(|o| o.iter().map(|(k, v)| (k.clone(), v.as_str().unwrap_or("").to_string())).collect())).unwrap_or_default()
+                    };
+                    let (before, after) = (enc_of(&p), enc_of(&p2));
+                    for (k, z) in &before {
+                        if let Some((_, z2)) = after.iter().find(|(k2, _)| k2 == k) {
+                            cases.push((json!({"op":"bn_hop","fam":"c15.bn_hop","attr":k,"z":z,"nt":true}), json!(z2)));
+                        }
+                    }
                     let (v1, v2) = (w3c::verifier::verify_presentation(&p, &req, &schemas, &cred_defs, None, None, None).unwrap_or(false), w3c::verifier::verify_presentation(&p2, &req, &schemas, &cred_defs, None, None, None).unwrap_or(false));
                     out.count(&format!("c15:negative-revealed:w3c:{v1}:{v2}"));
                     if v1 != v2 || !v1 {
@@ -294,6 +306,7 @@ pub fn c15(eng: &mut Engine, rng: &mut Rng, thorough: bool, out: &mut Out) -> Ca
                     }
                 }
             }
+        }
         }
     }
     // every data-model version of the W3C form (1.1 carries an issuance date, 2.0 does not): converted credentials and presentations
